@@ -527,11 +527,13 @@ def nxm_header (vendor, field, hasmask, length):
   return struct.pack('!L', (vendor << 16) | (field << 9) | ((1 if hasmask else 0) << 8) | length)
 
 
-def nxm_entry (name, value, mask=None, path=''):
-  """value / mask: payload bytes.  An all-ones mask is equivalent to no mask."""
+def nxm_entry (name, value, mask=None, path='', explicit=False):
+  """value / mask: payload bytes.  An all-ones mask is equivalent to no mask and is what an
+  encoder normally omits; explicit=True keeps it (the has-mask form with mask ff..ff is
+  legal NXM and is what another implementation may send)."""
   vendor, field, n = NXM_FIELDS[name]
   if len(value) != n: raise SpecError("%s: value is %d bytes, field has %d" % (name, len(value), n))
-  if mask is not None and mask == b'\xff' * n: mask = None
+  if mask is not None and mask == b'\xff' * n and not explicit: mask = None
   if mask is None:
     return [(path + 'nxm_header', nxm_header(vendor, field, False, n)), (path + 'value', value)]
   if len(mask) != n: raise SpecError("%s: mask length" % name)
